@@ -25,7 +25,10 @@ Inductive kev :=
 | Reap (pid : Z)                   (* leaves the table; the PID is free again *)
 | ClockStep (d : Z).               (* the system clock is stepped: published boot time changes *)
 
-Inductive ev := EK (k : kev) | EC (c : call).
+(* EK: a kernel event; EC: a psutil call, atomic with respect to kernel events;
+   ER o s ks: the signal/setter call [s] on object [o] taken apart -- the identity probe, then the kernel
+   events [ks] (the window between psutil's check and its system call), then the system call *)
+Inductive ev := EK (k : kev) | EC (c : call) | ER (o : nat) (s : setter) (ks : list kev).
 
 Definition lookup (t : list kproc) (p : Z) : option kproc := find (fun k => kpid k =? p) t.
 
@@ -50,7 +53,8 @@ Definition g_inc (w : world) (o : nat) : Z := nth o (ginc w) (-1).
 Definition inc_pid (w : world) (i : Z) : Z :=
   match find (fun e => fst (fst e) =? i) (hist w) with Some (_, p, _) => p | None => -1 end.
 (* the PID of the process the object was created for (ghost) / the pid attribute of the object *)
-Definition g_pid (w : world) (o : nat) : Z := inc_pid w (g_inc w o).
+Definition g_pid (w : world) (o : nat) : Z :=
+  if g_inc w o <? 0 then -1 - g_inc w o else inc_pid w (g_inc w o).
 Definition obj_pid (w : world) (o : nat) : Z :=
   match nth_error (objs (ms w)) o with Some x => opid x | None => -1 end.
 Definition has_obj (w : world) (o : nat) : bool :=
@@ -101,15 +105,28 @@ Definition wf_kev (w : world) (k : kev) : bool :=
    (None: no such PID, the kernel answered ESRCH) *)
 Definition tag (w : world) (c : sysc) : sysc * option Z := (c, owner w (sysc_pid c)).
 
+(* ghost of a new object: the incarnation owning its PID now; for an object built for a PID nobody owns
+   (psutil.Popen whose child is gone) a negative token naming that PID -- never the number of a process *)
+Definition ghost_of (w : world) (y : pobj) : Z :=
+  match owner w (opid y) with Some i => i | None => -1 - opid y end.
+
+Definition cstep (w : world) (c : call) : world * outcome res * list (sysc * option Z) :=
+  let '(m1, r, scs) := mcall (view_of w) (ms w) c in
+  ({| table := table w; hist := hist w; nextinc := nextinc w; btime := btime w; ms := m1;
+      ginc := ginc w ++ map (ghost_of w) (skipn (length (objs (ms w))) (objs m1)) |},
+   r, map (tag w) scs).
+
 Definition step (w : world) (e : ev) : world * outcome res * list (sysc * option Z) :=
   match e with
   | EK k => (kstep w k, Val RNone, [])
-  | EC c =>
-    let '(m1, r, scs) := mcall (view_of w) (ms w) c in
-    ({| table := table w; hist := hist w; nextinc := nextinc w; btime := btime w; ms := m1;
-        ginc := ginc w ++ map (fun y => match owner w (opid y) with Some i => i | None => -1 end)
-                              (skipn (length (objs (ms w))) (objs m1)) |},
-     r, map (tag w) scs)
+  | EC c => cstep w c
+  | ER o s ks =>
+    let '(w1, r1, _) := cstep w (SetProbe o) in
+    let w2 := fold_left kstep ks w1 in
+    match r1 with
+    | Val _ => cstep w2 (SetAct o s)
+    | _ => (w2, r1, [])
+    end
   end.
 
 Definition next (w : world) (e : ev) : world := fst (fst (step w e)).
@@ -118,7 +135,14 @@ Definition effects_of (w : world) (e : ev) : list (sysc * option Z) := snd (step
 Definition run_from (w : world) (h : list ev) : world := fold_left next h w.
 Definition run (h : list ev) : world := run_from world0 h.
 
-Definition wf_ev (w : world) (e : ev) : bool := match e with EK k => wf_kev w k | EC _ => true end.
+Fixpoint wf_kevs (w : world) (ks : list kev) : bool :=
+  match ks with [] => true | k :: r => wf_kev w k && wf_kevs (kstep w k) r end.
+Definition wf_ev (w : world) (e : ev) : bool :=
+  match e with
+  | EK k => wf_kev w k
+  | EC _ => true
+  | ER o _ ks => wf_kevs (fst (fst (cstep w (SetProbe o)))) ks
+  end.
 Fixpoint wf_from (w : world) (h : list ev) : bool :=
   match h with [] => true | e :: r => wf_ev w e && wf_from (next w e) r end.
 Definition wf_hist (h : list ev) : bool := wf_from world0 h.
@@ -161,10 +185,13 @@ Definition spec_call (w : world) (c : call) : option (list (outcome res * list (
                  then Val (RObj (length (ginc w))) else Exc NoSuchProcess, []) ]
   | IsRunning o =>
     if has_obj w o then Some [ (Val (RBool (alive w (g_inc w o))), []) ] else None
+  (* two objects neither of which was built for a process (Popen, child gone): the property text is silent *)
   | EqC a b =>
-    if has_obj w a && has_obj w b then Some [ (Val (RBool (g_inc w a =? g_inc w b)), []) ] else None
+    if has_obj w a && has_obj w b && ((0 <=? g_inc w a) || (0 <=? g_inc w b))
+    then Some [ (Val (RBool (g_inc w a =? g_inc w b)), []) ] else None
   | HashEq a b =>
-    if has_obj w a && has_obj w b then Some [ (Val (RHash (g_inc w a =? g_inc w b) true), []) ] else None
+    if has_obj w a && has_obj w b && ((0 <=? g_inc w a) || (0 <=? g_inc w b))
+    then Some [ (Val (RHash (g_inc w a =? g_inc w b) true), []) ] else None
   | Set_ o s =>
     if has_obj w o then
       let p := g_pid w o in
@@ -175,7 +202,9 @@ Definition spec_call (w : world) (c : call) : option (list (outcome res * list (
            | None => Some ((Exc NoSuchProcess, []) :: if valid_args p s then [] else [(Exc ValueError, [])])
            end
     else None
-  | Ppid _ | CreateTime _ | BootTime | ProcIter | NewPopen _ | OneshotEnter _ | OneshotExit _ | AsDict _ => None
+  | EqOther o => if has_obj w o then Some [ (Val (RBool false), []) ] else None
+  | Ppid _ | CreateTime _ | BootTime | ProcIter | NewPopen _ | OneshotEnter _ | OneshotExit _ | AsDict _
+  | SetProbe _ | SetAct _ _ => None
   end.
 
 (* no attempt at all may name PID 0 or a negative PID in os.kill *)
